@@ -25,7 +25,7 @@ TRUSTED = ["modelled not verified: HKDF, serde representation of the ratchet sta
 RULE = ("quick: all request sequences of length <= 3 over generations {0..4} x all windows (fwd, ooo) in 0..4 x 0..4; 700 random permutations of 5-6 generations "
         "with loss and duplication, windows 0..4; 300 random long deliveries (up to 80 requests, jitter/loss/duplication/jumps, windows up to 64); "
         "windows changing between requests; u32 boundary cases (head near u32::MAX, head - g around 2^31 with ooo >= 2^31). thorough: all sequences of "
-        "length <= 5 over {0..4} x all 25 windows, all permutations of 6 generations x 25 windows, 6000 random. "
+        "length <= 4 over {0..4} x all 25 windows, all of length 5 x 3 windows, all permutations of 6 generations x 9 windows, 7500 random. "
         "non-trivial = at least one key handed out and (at least one rejection or a key for an older generation than one already seen)")
 MAXU32 = 4294967295
 COQ_SHARD = 600
@@ -84,21 +84,24 @@ def _boundary(rng):
 
 def gen(tier, rng):
     quick = tier == "quick"
-    maxlen = 3 if quick else 5
+    maxlen = 3 if quick else 4
     for fwd in range(5):
         for ooo in range(5):
             for n in range(0, maxlen + 1):
                 for gs in itertools.product(range(5), repeat=n):
                     yield {"base": 0, "reqs": [[g, fwd, ooo] for g in gs]}
     if not quick:
-        for fwd in range(5):
-            for ooo in range(5):
+        for fwd, ooo in ((1, 1), (2, 3), (4, 2)):
+            for gs in itertools.product(range(5), repeat=5):
+                yield {"base": 0, "reqs": [[g, fwd, ooo] for g in gs]}
+        for fwd in (0, 2, 4):
+            for ooo in (0, 2, 4):
                 for gs in itertools.permutations(range(6)):
                     yield {"base": 0, "reqs": [[g, fwd, ooo] for g in gs]}
     for _ in range(700 if quick else 3000):
         gs = _perm_loss_dup(rng, rng.choice([5, 6]))
         fwd, ooo = rng.randint(0, 4), rng.randint(0, 4)
-        yield {"base": rng.choice([0, 0, 0, 7]), "reqs": [[g + (7 if False else 0), fwd, ooo] for g in gs]}
+        yield {"base": rng.choice([0, 0, 0, 7]), "reqs": [[g, fwd, ooo] for g in gs]}
     for _ in range(300 if quick else 3000):
         fwd, ooo, gs = _long(rng, rng.randint(5, 60 if quick else 200), 64)
         base = rng.choice([0, 0, 0, 5, 1000])
